@@ -28,6 +28,9 @@ fn exec_line(line: &str) -> String {
     } else if line.starts_with("Q ") {
         // `Q <policy> <capacity>`: one of the crate's built-in policies asked directly
         let t: Vec<&str> = line.trim().split(' ').collect();
+        if t.len() == 5 {
+            return big_buffer_case(&t);
+        }
         match (t.get(1).and_then(|p| util::PolDesc::parse(p)), t.get(2).and_then(|c| c.parse::<usize>().ok())) {
             (Some(p), Some(c)) => {
                 use seq_io::policy::BufPolicy;
@@ -123,5 +126,53 @@ fn main() {
             eprintln!("usage: seqio_harness gen <family> <size> <seed> | exec");
             std::process::exit(2);
         }
+    }
+}
+
+/// `Q <policy> <capacity> <fa|fq> <len>`: a reader of that capacity under a recording policy reads a file holding ONE record
+/// of `len` bytes in all (buffer sizes far beyond those of the byte-level cases); observation: what the first read
+/// returned and the requests the policy received.
+fn big_buffer_case(t: &[&str]) -> String {
+    use seq_io::{fasta, fastq};
+    let (pol, cap, len) = match (util::PolDesc::parse(t[1]), t[2].parse::<usize>().ok(), t[4].parse::<usize>().ok()) {
+        (Some(p), Some(c), Some(l)) if l >= 12 && c >= 3 => (p, c, l),
+        _ => return "bad-case".to_string(),
+    };
+    let log: util::Log = std::rc::Rc::new(std::cell::RefCell::new(vec![]));
+    let mut input: Vec<u8> = vec![];
+    let res = std::panic::catch_unwind(std::panic::AssertUnwindSafe(|| match t[3] {
+        "fa" => {
+            input.extend_from_slice(b">i\n");
+            input.extend(std::iter::repeat(b'A').take(len - 4));
+            input.push(b'\n');
+            let mut r = fasta::Reader::with_capacity(&input[..], cap).set_policy(util::DynPolicy::new(pol.clone(), log.clone()));
+            match r.next() {
+                Some(Ok(rec)) if fasta::Record::seq(&rec).len() == len - 4 => "R",
+                Some(Ok(_)) => "R!wrong",
+                Some(Err(fasta::Error::BufferLimit)) => "E:bl",
+                Some(Err(_)) => "E:other",
+                None => "N",
+            }
+        }
+        _ => {
+            let k = (len - 7) / 2;
+            input.extend_from_slice(if (len - 7) % 2 == 1 { b"@ii\n" } else { b"@i\n" });
+            input.extend(std::iter::repeat(b'A').take(k));
+            input.extend_from_slice(b"\n+\n");
+            input.extend(std::iter::repeat(b'I').take(k));
+            input.push(b'\n');
+            let mut r = fastq::Reader::with_capacity(&input[..], cap).set_policy(util::DynPolicy::new(pol.clone(), log.clone()));
+            match r.next() {
+                Some(Ok(rec)) if fastq::Record::seq(&rec).len() == k && fastq::Record::qual(&rec).len() == k => "R",
+                Some(Ok(_)) => "R!wrong",
+                Some(Err(fastq::Error::BufferLimit)) => "E:bl",
+                Some(Err(_)) => "E:other",
+                None => "N",
+            }
+        }
+    }));
+    match res {
+        Ok(tok) => format!("{} L={}", tok, util::log_str(&log)),
+        Err(_) => format!("PANIC L={}", util::log_str(&log)),
     }
 }
